@@ -14,9 +14,9 @@ if [ ! -x "$INSTR" ] || [ "$V/tools/instr/main.go" -nt "$INSTR" ]; then
 fi
 rm -rf "$OUT"; mkdir -p "$OUT"
 "$INSTR" "$REPO" "$OUT" \
-  'internal/martian/proxy.go::::for conn := range p.conns {=>for _, conn := range sync.RangeOrder(p.conns, func(c net.Conn) string { return c.RemoteAddr().String() }) {' \
+  'internal/martian/proxy.go::::@range|Close|p.conns|func(c net.Conn) string { return c.RemoteAddr().String() }' \
   proxyproto/net.go \
   conntrack/conntrack.go \
-  $'internal/martian/h2/relay.go::::for _, w := range r.outputBuffers {\n\t\tw.emitEligibleFrames=>for _, zzvK := range sync.RangeOrder(r.outputBuffers, func(k uint32) string { return fmt.Sprintf("%08d", k) }) { w := r.outputBuffers[zzvK]\n\t\tw.emitEligibleFrames' \
+  'internal/martian/h2/relay.go::::@range|sendQueuedFramesUnderWindowSize|r.outputBuffers|func(k uint32) string { return fmt.Sprintf("%08d", k) }' \
   pac/pool.go \
   'internal/martian/mitm/mitm.go::c\.certs\.(Get|Add)\('
